@@ -5,11 +5,16 @@ import RTV.Props.C03Extract
 The regexes responsible for these two shapes (NumbersWithPlaceHolder, DoubleDecimalPointRegex) differ per culture in
 their sign prefix and look-aheads; `RTV.Props.C03ExtractPlain` proves the universal statement for the cultures whose
 regex has the common form (not en-us, not it-it plain integers, not de-de / nl-nl decimals).  Here, for ALL sixteen
-configurations, the MODEL extractor — the regenerated regexes, all of them,
-with negative terms and ambiguity filters — is evaluated by the kernel on every configuration x sign x boundary
-lengths, standing alone and inside the carrier `a … b`.  The matcher only looks at the CLASS of a character, so one
-digit stands for all.  What an induction would add (and `rep_det_cons` + `chain_digits` provide the step for): the
-greedy `\d+` takes a run of ANY length first.
+configurations, the MODEL extractor run with the DIGIT FAMILY of the list (the regenerated `IntegerNum` / `DoubleNum`
+regexes that consume digits, blanks and punctuation only — 8 of the 23 English entries — with negative terms and
+ambiguity filters) is evaluated by the kernel on every configuration x sign x boundary lengths, standing alone and inside
+the carrier `a … zq.`.  The carrier's right part ` zq.` satisfies the carrier contract `PostOK` of every configuration
+(`bounded_carrier_admissible`: `zq` continues a literal in no culture); the former carrier `a … b` did not (`b` is the
+billion suffix: the real list reports `7777 b`, `RTV.Props.C03Extract.post_b_excluded`).  That the entries outside the
+family add nothing on exactly these texts is checked on the real extractor objects by harness/lib/numextractcorr.py
+(`bounded` tie: the texts of this file are rebuilt there and the full list must report what the family reports).
+The matcher only looks at the CLASS of a character, so one digit stands for all.  What an induction would add (and
+`rep_det_cons` + `chain_digits` provide the step for): the greedy `\d+` takes a run of ANY length first.
 -/
 namespace RTV.Props.C03Extract
 open RTV.Py RTV.Re RTV.Span RTV.Num RTV.NumExtract RTV.Gen.NumRegex
@@ -18,20 +23,32 @@ set_option maxRecDepth 100000
 
 def digitsN (n : Nat) : Str := List.replicate n 55
 
-/-- the literal alone and in the carrier `a <literal> b`: exactly one result, the whole literal -/
+/-- the carrier of the bounded theorems: `a ` … ` zq.` -/
+def carrierPre : Str := [97, 32]
+def carrierPost : Str := [32, 122, 113, 46]
+
+/-- the literal alone and in the carrier `a <literal> zq.`: exactly one result, the whole literal -/
 def wholeOK (e : Ext) (t : Str) : Bool :=
   spans (extract RTV.Gen.reTables spB e t) == [(0, t.length)] &&
-  spans (extract RTV.Gen.reTables spB e ([97, 32] ++ t ++ [32, 98])) == [(2, t.length)]
+  spans (extract RTV.Gen.reTables spB e (carrierPre ++ t ++ carrierPost)) == [(2, t.length)]
 
 def plainText (n : Nat) (neg : Bool) : Str := (if neg then [45] else []) ++ digitsN n
 def decimalText (d : Nat) (n f : Nat) (neg : Bool) : Str := (if neg then [45] else []) ++ digitsN n ++ d :: digitsN f
 
-/-- plain integers of 1 and 4 digits, both signs, all sixteen configurations -/
+/-- the carrier is inside the contract of the universal theorems, for every configuration -/
+theorem bounded_carrier_admissible : ∀ c ∈ allCfgs,
+    PreOK RTV.Gen.reTables carrierPre ∧ PostOK RTV.Gen.reTables (folOf c.follow) carrierPost := by
+  intro c hc
+  refine ⟨⟨Or.inr rfl, by decide +kernel⟩, ?_⟩
+  exact (post_ordinary_ok c hc).2.1
+
+/-- plain integers of 1 and 4 digits, both signs, all sixteen configurations (digit family) -/
 theorem plain_bounded :
     (allCfgs.all fun c => [1, 4].all fun n => wholeOK c.ext (plainText n false) && wholeOK c.ext (plainText n true)) = true := by
   decide +kernel
 
-/-- plain decimals written with the culture's decimal mark, positive, `7.7` and `777.77`: all sixteen configurations -/
+/-- plain decimals written with the culture's decimal mark, positive, `7.7` and `777.77`: all sixteen configurations
+(digit family) -/
 theorem decimal_bounded :
     (allCfgs.all fun c => wholeOK c.ext (decimalText c.d 1 1 false) && wholeOK c.ext (decimalText c.d 3 2 false)) = true := by
   decide +kernel
